@@ -420,6 +420,7 @@ def r_category_table(repo, rep, R):
     a = add.args.args[0].arg
     okp = True
     detail = []
+    used_setdefault = False
     for st, out in SymExec(add).run():
         if out == 'raise':
             continue
@@ -430,6 +431,23 @@ def r_category_table(repo, rep, R):
         sets = [e for e in st.events if e[0] == 'setitem' and e[1] == N(index)]
         muts = [e for e in st.events if e[0] in ('del', 'aug') or (e[0] == 'call' and e[1][1][0] == 'attr'
                 and e[1][1][1] in (N(table), N(index)) and e[1][1][2] in MUTATORS and e[1][1][2] != 'append')]
+        # one look-up that also files the new entry: cat_id = index.setdefault(cat, len(table)); a category is new exactly
+        # when what comes back is that very position (every id on file is a position below it)
+        SD = ('call', A(N(index), 'setdefault'), (N(a), ('call', N('len'), (N(table),), ())), ())
+        sd_pol = [pol for c, pol in conds_ if c in (('cmp', '==', SD, ('call', N('len'), (N(table),), ())), ('cmp', '==', ('call', N('len'), (N(table),), ()), SD))]
+        sd_pol += [not pol for c, pol in conds_ if c in (('cmp', '!=', SD, ('call', N('len'), (N(table),), ())), ('cmp', '!=', ('call', N('len'), (N(table),), ()), SD))]
+        if sd_pol:
+            muts_sd = [e for e in muts if not (e[0] == 'call' and e[1] == SD)]
+            i_sd = [i_ for i_, e in enumerate(st.events) if e[0] == 'call' and e[1] == SD]
+            if sd_pol[-1]:
+                ok = len(apps) == 1 and apps[0][1][2] == (N(a),) and not sets and not muts_sd and bool(i_sd) and i_sd[0] < st.events.index(apps[0])
+                detail.append('new (setdefault gave the next position): append=%s' % [show(x[1]) for x in apps])
+            else:
+                ok = not apps and not sets and not muts_sd
+                detail.append('known (setdefault gave an id on file): no change' if ok else 'known: table modified')
+            okp = okp and ok and st.ret == SD
+            used_setdefault = True
+            continue
         if new:
             ok = (len(apps) == 1 and apps[0][1][2] == (N(a),) and len(sets) == 1 and sets[0][2] == N(a) and not muts)
             if ok:
@@ -454,7 +472,8 @@ def r_category_table(repo, rep, R):
     for n in ast.walk(mod.tree):
         if isinstance(n, ast.Call) and isinstance(n.func, ast.Attribute) and isinstance(n.func.value, ast.Name) \
                 and n.func.value.id in (table, index) and n.func.attr in MUTATORS:
-            if not (n.func.value.id == table and n.func.attr == 'append' and add in list(_parents(n))):
+            if not (n.func.value.id == table and n.func.attr == 'append' and add in list(_parents(n))) and \
+                    not (used_setdefault and n.func.value.id == index and n.func.attr == 'setdefault' and add in list(_parents(n))):
                 bad.append('%s.%s at line %s' % (n.func.value.id, n.func.attr, n.lineno))
         if isinstance(n, (ast.Assign, ast.AugAssign, ast.Delete)):
             tg = n.targets if isinstance(n, (ast.Assign, ast.Delete)) else [n.target]
